@@ -207,6 +207,13 @@ TraceTFinish ==
     /\ ~Line.panicked
     /\ (pairReq # 0 /\ cfg.wfail # pairReq /\ ~reqs[pairReq].partial) => ~Line.err
     /\ (pairReq = 0 /\ sent = rd /\ (out = << >> \/ out[Len(out)].kind # "reject")) => (Line.send = 0 /\ Line.recv = 0 /\ ~Line.err)
+    \* sizes of this exchange: a handled request declared by Content-Length counts at least its body and at most its
+    \* bytes on the wire; the answered echo response ("ok-<n>") counts at least its body
+    /\ (pairReq # 0 /\ cfg.wfail # pairReq /\ ~reqs[pairReq].partial /\ ~reqs[pairReq].big /\ Beh(pairReq) = "ok"
+           /\ script[pairReq].framing = "cl" /\ ~Denied(pairReq))
+         => (Line.recv >= 1 /\ Line.recv >= reqs[pairReq].bodyLen /\ Line.recv <= reqs[pairReq].end - reqs[pairReq].start)
+    /\ (pairReq # 0 /\ cfg.wfail # pairReq /\ ~reqs[pairReq].partial /\ Beh(pairReq) = "ok" /\ pairReq \notin DOMAIN resps)
+         => Line.send >= 4
     /\ Consume /\ KeepAux
 
 \* between requests (nothing logged): skip the rest of a streamed body, finish the tracer pair, next request.
